@@ -221,6 +221,12 @@ func kvKeys(w *world.World) [][]byte {
 			add([]byte(k))
 		}
 	}
+	// the protected prefix occurring more than once, and keys of tokens whose identifier itself
+	// contains the prefix
+	for _, k := range []string{"ELRONDELROND", "ELRONDxELROND", "ELRONDELRONDx", "xELRONDELROND", "ELRONELROND", "ELROND ELROND",
+		spec.TokPrefix + "ELROND-a1b2c3", spec.RolePrefix + "ELROND-a1b2c3", spec.NoncePrefix + "ELROND-a1b2c3", spec.TokPrefix + tF + "ELROND", "ELRONDELRONDELROND"} {
+		add([]byte(k))
+	}
 	add([]byte("k"))
 	add([]byte("ELRONx"))
 	add([]byte("ELROND"))
